@@ -68,7 +68,7 @@ def model_check(inst, tier):
         env = {"CFG_FILE": cf}
     try:
         rc, out = tlc.run_tlc(module, cfgf, wd, env=env, workers=inst.get("workers", 16),
-                              timeout=inst.get("timeout", 3000), extra=extra, heap="8g", quickjit=False)
+                              timeout=inst.get("timeout", tlc.TLC_TIMEOUT_S), extra=extra, heap="8g", quickjit=False)
         st = tlc.parse_states(out)
         res = {"family": inst["family"], "tier": tnum, "module": module,
                "checked": inst.get("invariants", []) + inst.get("properties", []),
@@ -149,7 +149,7 @@ def spec_runs(pairs, chunks=16):
         with open(cfgf, "w") as f:
             f.write("INIT Init\nNEXT Next\nCHECK_DEADLOCK FALSE\n")
         rc, o = tlc.run_tlc("Gen_SpecRun", cfgf, sd, env={"CFG_FILE": cf, "OUT_FILE": out}, workers=1,
-                            timeout=3000, heap="4g")
+                            timeout=tlc.TLC_TIMEOUT_S, heap="4g")
         if rc != 0 or not os.path.exists(out):
             raise tlc.MachineryError("export of specification runs failed:\n%s" % o[-2000:])
         with open(out) as f:
